@@ -1291,4 +1291,100 @@ theorem memo_stable_across_reads' (draw : Nat → Nat → Nat → Nat) (m : Memo
   rw [hv]
   exact b1 q v (memo_after_mono draw mids _ q v hv)
 
+/-! # Phase 3 -/
+
+theorem content_stage_reads' (dec : Item → C10.Inter) (enc : C10.Inter → Item) (cfg : C10.Cfg) (st : C10.Step) (par : List Nat)
+    (u : List Item) (ns : List Node) (h : chainOK u ns) (d : Demand) :
+    viewN u (ns ++ [.pure (contentPure dec enc cfg st par)]) = contentF dec enc cfg st (denN u ns) ∧
+    viewN u (touchN u (ns ++ [.pure (contentPure dec enc cfg st par)]) d).1 = contentF dec enc cfg st (denN u ns) :=
+  pure_stage_stable' u ns h (contentPure dec enc cfg st par) d
+
+/-! ### aliasing -/
+
+theorem astage_keeps_store (s : AStage) (hs : s.writesInput = false) (st : Store) (as : List Nat) :
+    (s.run (st, as)).1.take st.length = st := by
+  cases s with
+  | copyMap g => simp [AStage.run]
+  | share => simp [AStage.run]
+  | inPlace g => simp [AStage.writesInput] at hs
+
+theorem astage_store_grows (s : AStage) (hs : s.writesInput = false) (st : Store) (as : List Nat) :
+    ∃ ext, (s.run (st, as)).1 = st ++ ext := by
+  cases s with
+  | copyMap g => exact ⟨_, rfl⟩
+  | share => exact ⟨[], by simp [AStage.run]⟩
+  | inPlace g => simp [AStage.writesInput] at hs
+
+theorem runStages_store_grows : ∀ (ss : List AStage), (∀ s ∈ ss, s.writesInput = false) → ∀ (st : Store) (as : List Nat),
+    ∃ ext, (runStages ss (st, as)).1 = st ++ ext
+  | [], _, st, _ => ⟨[], by simp [runStages]⟩
+  | s :: ss, h, st, as => by
+    obtain ⟨e1, h1⟩ := astage_store_grows s (h s List.mem_cons_self) st as
+    have hrun : s.run (st, as) = (st ++ e1, (s.run (st, as)).2) := by rw [← h1]
+    obtain ⟨e2, h2⟩ := runStages_store_grows ss (fun x hx => h x (List.mem_cons_of_mem _ hx)) (st ++ e1) (s.run (st, as)).2
+    refine ⟨e1 ++ e2, ?_⟩
+    simp only [runStages]
+    rw [hrun, h2, List.append_assoc]
+
+theorem no_stage_writes_input' (ss : List AStage) (h : ∀ s ∈ ss, s.writesInput = false) (st : Store) (held : List Nat) :
+    (readOnce ss st held).1.take st.length = st := by
+  obtain ⟨ext, he⟩ := runStages_store_grows ss h st held
+  unfold readOnce
+  rw [he]; simp
+
+theorem deliver_copy (st vals : List Nat) :
+    ((List.range vals.length).map (· + st.length)).map (fun a => (st ++ vals).getD a 0) = vals := by
+  apply List.ext_getElem
+  · simp
+  · intro i h1 h2
+    simp at h1
+    simp [List.getD, List.getElem?_append_right, h1]
+
+theorem astage_deliver_congr (s : AStage) (hs : s.writesInput = false) (st1 st2 : Store) (as1 as2 : List Nat)
+    (h : as1.map (fun a => st1.getD a 0) = as2.map (fun a => st2.getD a 0)) :
+    deliver (s.run (st1, as1)) = deliver (s.run (st2, as2)) := by
+  cases s with
+  | copyMap g =>
+    simp only [AStage.run, deliver]
+    have e1 := deliver_copy st1 (as1.map (fun a => g (st1.getD a 0)))
+    have e2 := deliver_copy st2 (as2.map (fun a => g (st2.getD a 0)))
+    rw [e1, e2]
+    have := congrArg (List.map g) h
+    simp only [List.map_map] at this ⊢
+    exact this
+  | share => simpa [AStage.run, deliver] using h
+  | inPlace g => simp [AStage.writesInput] at hs
+
+theorem runStages_deliver_congr : ∀ (ss : List AStage), (∀ s ∈ ss, s.writesInput = false) → ∀ (st1 st2 : Store) (as1 as2 : List Nat),
+    as1.map (fun a => st1.getD a 0) = as2.map (fun a => st2.getD a 0) →
+    deliver (runStages ss (st1, as1)) = deliver (runStages ss (st2, as2))
+  | [], _, _, _, _, _, h => by simpa [runStages, deliver] using h
+  | s :: ss, hs, st1, st2, as1, as2, h => by
+    simp only [runStages]
+    have := astage_deliver_congr s (hs s List.mem_cons_self) st1 st2 as1 as2 h
+    exact runStages_deliver_congr ss (fun x hx => hs x (List.mem_cons_of_mem _ hx)) (s.run (st1, as1)).1 (s.run (st2, as2)).1
+      (s.run (st1, as1)).2 (s.run (st2, as2)).2 this
+
+theorem second_read_same' (ss : List AStage) (h : ∀ s ∈ ss, s.writesInput = false) (st : Store) (held : List Nat)
+    (hv : ∀ a ∈ held, a < st.length) :
+    deliver (readOnce ss (readOnce ss st held).1 held) = deliver (readOnce ss st held) := by
+  obtain ⟨ext, he⟩ := runStages_store_grows ss h st held
+  unfold readOnce
+  apply runStages_deliver_congr ss h
+  rw [he]
+  apply List.map_congr_left
+  intro a ha
+  simp [List.getD, List.getElem?_append_left (hv a ha)]
+
+/-! ### save / from_save -/
+
+theorem load_save_batches' (n : Nat) : ∀ xs : List Item, loadBatches (saveBatches n xs) = xs := by
+  intro xs
+  induction xs using saveBatches.induct n with
+  | case1 => simp [saveBatches, loadBatches]
+  | case2 x xs ih =>
+    rw [saveBatches]
+    simp only [loadBatches, List.flatten_cons] at ih ⊢
+    rw [ih, List.take_append_drop]
+
 end Coba.C04
